@@ -287,7 +287,22 @@ fn run_atom(o: &mut Outcome, case: &Value) {
     if faulted && m["k"] == "atom" {
         o.bump(&format!("fault.atom.{}", m["sub"].as_str().unwrap_or("?")));
     }
-    match in_process_decode(ty, &bytes) {
+    let mut first = in_process_decode(ty, &bytes);
+    if faulted && matches!(first, Ok(Err(_))) {
+        // a decoder's verdict is a function of the bytes: the same refused encoding presented
+        // again (same thread, right away) must be refused again
+        o.bump("fault.wire.refused-encoding-presented-again");
+        let again = in_process_decode(ty, &bytes);
+        if matches!(again, Ok(Ok(_))) {
+            let site = match m["atom"].as_u64() {
+                Some(a) if m["k"] == "atom" => format!("{}:{}", s.ty, s.trace.atoms[a as usize].path),
+                _ => s.ty.clone(),
+            };
+            o.violate("accepted-on-repeated-decode", &site, format!("{}: refused when first decoded, accepted when the same bytes are decoded again", what));
+            first = again;
+        }
+    }
+    match first {
         Err(_p) => {
             // a panicking decoder is C16's finding, not a wire-invariant violation
             o.bump("probe.decode_panicked");
